@@ -222,7 +222,12 @@ def history_oracle(case, objs, st):
         else:
             s = PX
         rows = [[Fraction(1), fr(v)] for v in s]
-        y = [fr(v) for v in np.asarray(o.y, dtype=float)]
+        # the data of this function's LAST public fit call, taken from the history itself (not from what the
+        # object happens to have stored: a stale or missing o.y is exactly what must not go unnoticed)
+        last_round = [r for f, r in ops if f == h]
+        if not last_round:
+            continue
+        y = [fr(v) for v in np.asarray(proto_y(h, last_round[-1]), dtype=float)]
         sol = exact_lsq(rows, y, [Fraction(1)] * len(y))
         if sol is None:
             continue
@@ -461,14 +466,15 @@ def run_conddist(case):
                 if st["ver"][h] == 0:
                     bad.append(("all_called_all_fitted", f"parameter {order[h]} never fitted"))
                     continue
-                x = np.asarray(o.x, dtype=float)
+                # the data the ConditionalDistribution must have handed over (independent of what the object stored)
+                x = np.asarray(cd.conditioning_values, dtype=float)
+                y_handed = [pp[order[h]] for pp in cd.parameters_per_interval]
                 s = sum(np.asarray(objs[g](x), dtype=float) for g in decls[h]) if decls[h] else x
-                sol = exact_lsq([[Fraction(1), fr(v)] for v in s], [fr(v) for v in o.y], [Fraction(1)] * len(x))
+                sol = exact_lsq([[Fraction(1), fr(v)] for v in s], [fr(v) for v in y_handed], [Fraction(1)] * len(x))
                 if sol is not None and not close_params(st["params"][h], [float(v) for v in sol]):
                     bad.append(("fitted_after_conditioners",
                                 f"{order[h]}: {st['params'][h]} vs fit given current conditioners {[float(v) for v in sol]}"))
-                want_y = [pp[order[h]] for pp in cd.parameters_per_interval]
-                if list(o.y) != want_y:
+                if getattr(o, "y", None) is not None and list(o.y) != y_handed:
                     bad.append(("conddist_passes_interval_parameters", f"{order[h]}: y handed to fit differs"))
         st["oracle"] = bad
     return st, decls, ops
